@@ -1,2 +1,4 @@
 from props.client_props import gen_c04
-PROP = {"id": "C04", "stages": [{"name": "client", "target": "h_client", "gen": gen_c04, "shard": 12}], "trivial_tags": [], "rule": "", "assumptions": []}
+PROP = {"id": "C04", "stages": [{"name": "client", "target": "h_client", "gen": gen_c04, "shard": 12}], "trivial_tags": [],
+        "rule": 'binary uploads STOR/STOU/APPE: payload sizes around the 8192-byte block x four methods x IPv4/IPv6 x source chop patterns (1 byte .. full block); bytes and end-of-file seen by the peer, order of data-socket close vs. completion read from libc interposition. distinct = distinct scenario lines.',
+        "assumptions": ["in-memory control transport (a socket_base subclass) stands in for the TCP control socket; data connections are real loopback TCP", "oracle values (read sizes, kernel-chosen ports, connect results) are taken from the implementation run"]}
